@@ -355,6 +355,7 @@ class QuicStream:
         writable: bool = True,
     ) -> None:
         self.is_blocked = False
+        self.is_stopped_by_peer = False
         self.max_stream_data_local = max_stream_data_local
         self.max_stream_data_local_sent = max_stream_data_local
         self.max_stream_data_remote = max_stream_data_remote
